@@ -1556,6 +1556,10 @@ class Evaluator:
             self.loop_stack.append(lid)
             try:
                 t = ("call", fn, (el,), ())
+                if fn[0] == "call" and fn[1] == ("ext", "functools.partial") and fn[2] and not any(k == "**" for k, _ in fn[3]):
+                    # map(partial(g, a, b), xs): g(a, b, x) per element
+                    t = ("call", fn[2][0], tuple(fn[2][1:]) + (el,), tuple(sorted(fn[3])))
+                    fn = fn[2][0]
                 inl = self._try_inline(fn, t, AND(live, ("inloop", lid)), n)
                 if inl is not None:
                     return inl
